@@ -57,15 +57,16 @@ type World struct {
 }
 
 type API struct {
-	Unary       func(ctx context.Context, tok int) (int, error)
-	Notify      func(ctx context.Context, tok int) error        `notify:"true"`
-	Retry       func(ctx context.Context, tok int) (int, error) `retry:"true"`
-	Sub         func(ctx context.Context, tok int, n int) (<-chan [2]int, error)
-	Big         func(ctx context.Context, tok int, size int) (string, error)
-	Panic       func(ctx context.Context, tok int, kind string) (int, error)
-	PanicNotify func(ctx context.Context, tok int, kind string) error `notify:"true"`
-	PanicSub    func(ctx context.Context, tok int, kind string) (<-chan [2]int, error)
-	CallBack    func(ctx context.Context, tok int) (string, error)
+	Unary         func(ctx context.Context, tok int) (int, error)
+	Notify        func(ctx context.Context, tok int) error        `notify:"true"`
+	Retry         func(ctx context.Context, tok int) (int, error) `retry:"true"`
+	Sub           func(ctx context.Context, tok int, n int) (<-chan [2]int, error)
+	Big           func(ctx context.Context, tok int, size int) (string, error)
+	Panic         func(ctx context.Context, tok int, kind string) (int, error)
+	PanicNotify   func(ctx context.Context, tok int, kind string) error `notify:"true"`
+	PanicSub      func(ctx context.Context, tok int, kind string) (<-chan [2]int, error)
+	CallBack      func(ctx context.Context, tok int) (string, error)
+	CallBackPanic func(ctx context.Context, tok int, kind string) (string, error)
 }
 
 // RevAPI is what the server calls back on the client.
@@ -397,6 +398,17 @@ func (h *H) CallBack(ctx context.Context, tok int) (string, error) {
 	return who, nil
 }
 
+// CallBackPanic calls back into the client, then panics.
+func (h *H) CallBackPanic(ctx context.Context, tok int, kind string) (string, error) {
+	_, leave := h.enter(ctx, tok, "CallBackPanic")
+	if rc, ok := jsonrpc.ExtractReverseClient[RevAPI](ctx); ok {
+		rc.Who(ctx, tok)
+	}
+	leave("panic")
+	doPanic(kind)
+	return "", nil
+}
+
 // Sub streams (tok, 1) .. (tok, n).
 func (h *H) Sub(ctx context.Context, tok int, n int) (<-chan [2]int, error) {
 	w := h.w
@@ -635,7 +647,7 @@ func classifyErr(err error) (string, string) {
 		if strings.Contains(je.Message, "websocket connection closed") || je.Code == -1111111 {
 			return "conn", "generic"
 		}
-		if strings.Contains(je.Message, "panic") {
+		if strings.Contains(strings.ToLower(je.Message), "panic") { // incl. fmt's "%!v(PANIC=...)" for payloads whose own methods panic
 			return "herr", "panic"
 		}
 		if strings.HasPrefix(je.Message, "handler error") || strings.Contains(je.Message, "reverse call failed") {
@@ -707,6 +719,8 @@ func (c *Client) Call(ctx context.Context, kind string, tok int, arg ...interfac
 	case "panicnotify":
 		err = c.API.PanicNotify(ctx, tok, arg[0].(string))
 		token = tok
+	case "callbackpanic":
+		_, err = c.API.CallBackPanic(ctx, tok, arg[0].(string))
 	case "callback":
 		var s string
 		s, err = c.API.CallBack(ctx, tok)
